@@ -100,7 +100,8 @@ func writeChunked(b *bytes.Buffer, body []byte, size int, trailers []RawHeader) 
 
 // RawResponse is what the raw client read.
 type RawResponse struct {
-	Err        error
+	Err        error // no parsable response head (or watchdog)
+	BodyErr    error // the head was read but the body ended early / was malformed (Body holds what arrived)
 	Status     int
 	Proto      string
 	RawHeaders []RawHeader // as received, in order
@@ -207,7 +208,7 @@ func RawDo(addr string, q *RawRequest, watchdog time.Duration) (out RawResponse)
 	}
 	out.Body, err = io.ReadAll(resp.Body)
 	if err != nil {
-		out.Err = fmt.Errorf("reading response body: %v", err)
+		out.BodyErr = fmt.Errorf("reading response body: %v", err)
 	}
 	out.Trailer = resp.Trailer
 	select {
